@@ -65,6 +65,11 @@ def c03(cx):
     cx.validate("Trace_Server", "Trace_C03.cfg", r["trace"], what="directed history + dense archived week")
     r = cx.drv_ok("rotate", ["--only", "random"])
     cx.validate("Trace_Server", "Trace_C03.cfg", r["trace"], what="random histories")
+    r = cx.drv_ok("conc", ["--only", "impactrot"], crash_violation=True)
+    if not r.get("crashed"):
+        cx.validate("Trace_Server", "Trace_C13.cfg", r["trace"],
+                    what="a rotation held inside a round of the impact collector (yield point between its device list and a store), "
+                         "two further rotations: every impact rate is stored for, and archived at, the timeslot it was fetched for")
 
 
 def c04(cx):
@@ -287,6 +292,10 @@ def c08(cx):
     cx.validate("Trace_Server", "Trace_C08.cfg", r["trace"], what="server events of the recovery histories (reports via the relay, sync replies, rotation, restart)")
     cx.validate("Trace_System", "Trace_System.cfg", r["trace"] + ".sys", {"AllValues": "FALSE"},
                 what="Recovered at every quiescent point, RetransmitIdentical for all datagrams of a timeslot")
+    r = cx.drv_ok("rounds", ["--only", "resend"])
+    cx.validate("Trace_Round", "Trace_Round.cfg", r["trace"],
+                what="two overlapping rounds against three endpoints that report everything as missing (one round held after its pick while "
+                     "the other picks another primary server): every retransmission goes to the server its round synced with")
 
 
 def c12(cx):
@@ -298,6 +307,9 @@ def c12(cx):
           note="IndexInBounds asserted before every array access of report intake at every (now, offset) incl. lagging rotation and start-up catch-up")
     cx.mc("Shutdown", "Shutdown.cfg", {"ShDefects": "{}"}, workers=4,
           note="liveness closing ~> closed with 3 connections in every state (idle, half sent, answered, disconnected), fairness on server steps only")
+    # requests keep being answered and Close() returns only if no two handlers can wait for each other's mutex:
+    # every control-flow path of the server's locking code is walked, the nesting order must be acyclic
+    lockcfg(cx, ["server", "glow"])
     r = cx.drv_ok("accept", crash_violation=True)
     if not r.get("crashed"):
         cx.validate("Trace_Server", "Trace_C12.cfg", r["trace"], what="datagram menu at 7 clock/offset configurations incl. start-up catch-up (no panic, index in bounds)")
